@@ -154,7 +154,7 @@ func init() {
 		Level: "model_checking",
 		Rule: "typed worlds: a dependency under 5 paths (plain, dotted, vendored, nested-vendored, root vendor directory) x import style {plain, alias, dot} x every role of a 28-role catalogue singly x 5 shadowing modes x with/without a second import of an equally named package, and every ordered pair of roles (quick: 2 shadowing modes; thorough: all 5, with/without the second import); " +
 			"only files that type-check are in the quantifier; oracle computed from go/types: an identifier carries the vendor-stripped path of its object's package iff the object is a package-level object of another package, else none (qualified selectors collapse onto one identifier); " +
-			"the syntax-only resolver must agree on files without dot-imports and without shadowing, and must return an error for dot-imports and for two imports bound to one name; state = generated file; non-trivial = file with at least one remote reference",
+			"the syntax-only resolver must agree on files without dot-imports and without shadowing, and must return an error for dot-imports and for two imports bound to one name, also when the same resolver instance is asked again about the same file; state = generated file; non-trivial = file with at least one remote reference",
 		Assumptions: []string{"go/types of this toolchain defines what an identifier denotes", "programs range over the role catalogue"},
 		Units: func(tier string) []string {
 			var u []string
@@ -242,6 +242,15 @@ func c09Conflict(dep int) core.Outcome {
 	}
 	if derr == nil || df != nil {
 		return core.Outcome{Key: "goast-guesses-on-name-conflict", Desc: "goast resolved a file in which two imports are bound to the name dep instead of returning an error\n" + src}
+	}
+	for attempt := 2; attempt <= 3; attempt++ {
+		dec2 := decorator.NewDecoratorWithImports(fset, c09Local, dec.Resolver)
+		if p := guard(func() { df, derr = dec2.DecorateFile(af) }); p != "" {
+			return core.Outcome{Key: "goast-conflict-panic", Desc: "goast panicked when asked again: " + p}
+		}
+		if derr == nil || df != nil {
+			return core.Outcome{Key: "goast-guesses-on-name-conflict-when-asked-again", Desc: fmt.Sprintf("attempt %d with the same resolver: a tree instead of an error\n%s", attempt, src)}
+		}
 	}
 	return core.Outcome{OK: true}
 }
@@ -359,6 +368,17 @@ func c09Check(cs c09Case) (out core.Outcome, applicable bool, remote int) {
 	if cs.Style == "dot" {
 		if err == nil || df2 != nil {
 			return fail("goast-guesses-on-dot-import", "the syntax-based resolver returned a tree for a file with a dot-import instead of an error")
+		}
+		// asking the same resolver again (a fresh decorator, the same file) must not turn the refusal into a guess
+		for attempt := 2; attempt <= 3; attempt++ {
+			dec3 := decorator.NewDecoratorWithImports(fset2, c09Local, dec2.Resolver)
+			var df3 *dst.File
+			if p := guard(func() { df3, err = dec3.DecorateFile(af2) }); p != "" {
+				return fail("goast-panic", "attempt %d with the same resolver panicked: %s", attempt, p)
+			}
+			if err == nil || df3 != nil {
+				return fail("goast-guesses-on-dot-import-when-asked-again", "attempt %d: the syntax-based resolver, asked again about the same file with a dot-import, returned a tree instead of an error", attempt)
+			}
 		}
 		return core.Outcome{OK: true}, true, remote
 	}
